@@ -30,9 +30,6 @@ func (w *vsymWorld) age(cl *vsymClock, d int64) {
 }
 
 func VsymC43_Expiry() {
-	if vsym_Symbolic() {
-		vsym_Override("time.Now", func() time.Time { return time.Unix(1700000000, 0) })
-	}
 	k := vsym_Param("k")
 	w := vsymNewWorld("C43", 1, 1)
 	cl := &vsymClock{silence: map[string]int64{}}
